@@ -1140,7 +1140,11 @@ def run_predform_case(p):
                 q = an(entity(T(From(dom))))
                 fields = {}
             else:
-                x = let(type_=T, domain=dom)
+                # "however the variable was declared": with or without a name, positionally or by keyword
+                how = rng.choice(['plain', 'named', 'named', 'positional', 'positional_named'])
+                x = {'plain': lambda: let(type_=T, domain=dom), 'named': lambda: let(type_=T, domain=dom, name='v'),
+                     'positional': lambda: let(T, dom), 'positional_named': lambda: let(T, dom, 'v')}[how]()
+                style = 'let:' + how
                 q = an(entity(x))
                 fields = {}
         got = list(q.evaluate())
@@ -1766,7 +1770,7 @@ def run_registry_case(p):
     from entity_query_language.symbolic import Variable
     O.reset_registry()
     rng = random.Random(p['seed'])
-    classes = [O.PBase, O.PSub, O.PSubSub, O.PHand, O.POther, O.PDef, O.PDefSub]
+    classes = [O.PBase, O.PSub, O.PSubSub, O.PHand, O.POther, O.PDef, O.PDefSub, O.PAbc, O.PAbcSub]
     live = {K: [] for K in classes + [O.Built, O.PDefHand]}
     log = []
     pending = []      # queries declared but not evaluated yet
@@ -1827,7 +1831,7 @@ def run_registry_case(p):
                     return {'history': list(log), 'what': 'inference built %d instances for %d bindings' % (len(built), len(src)),
                             'signature_kind': 'infer'}
             elif op == 'declare':
-                T = rng.choice([O.PBase, O.PSub, O.PSubSub, O.Built, O.PDef, O.PDefSub])
+                T = rng.choice([O.PBase, O.PSub, O.PSubSub, O.Built, O.PDef, O.PDefSub, O.PAbc])
                 with symbolic_mode():
                     x = let(type_=T)
                     pending.append((T, an(entity(x))))
@@ -1839,7 +1843,7 @@ def run_registry_case(p):
                 if d:
                     return d
             else:
-                T = rng.choice([O.PBase, O.PSub, O.PSubSub, O.Built, O.PDef, O.PDefSub, O.PDefHand])
+                T = rng.choice([O.PBase, O.PSub, O.PSubSub, O.Built, O.PDef, O.PDefSub, O.PDefHand, O.PAbc, O.PAbcSub])
                 with symbolic_mode():
                     x = let(type_=T)
                     q = an(entity(x))
@@ -1868,13 +1872,15 @@ def run_infer_case(p):
     # the head mentions every variable of the rule (the property's precondition): a = x, b = y or an attribute of y, and a
     # constant in the third field.  Nested constructor arguments are not generated: whether a nested T2(...) in a head is
     # constructed or matched against existing instances is not settled by the property (see DESIGN.md, observations).
-    b_kind = rng.choice(['var', 'attr', 'attr', 'lookup', 'shared'])
+    b_kind = rng.choice(['var', 'attr', 'attr', 'lookup', 'shared', 'lookup_cond'])
     a_kind = 'var'
+    inner_op = rng.choice(['le', 'gt', 'ne', 'eq'])
     if b_kind == 'shared':
         # a rule variable y that the body does not bind appears in TWO head arguments: both are evaluated under the same
         # assignment of y (fields of different assignments are never mixed)
         cond = O.gen_cond(rng, 1, p.get('depth', 2), vocab=('cmp', 'name'), neg=p.get('neg', True))
-    if b_kind == 'lookup':
+    if b_kind in ('lookup', 'lookup_cond'):
+        # (lookup_cond: the nested sub-query has a condition of its own, correlated with x - only its solutions are values)
         # the second head argument is a nested quantified expression the body does not bind (it ranges over its own
         # domain d1): one instance per satisfying binding of x and per value of the nested expression
         cond = O.gen_cond(rng, 1, p.get('depth', 2), vocab=('cmp', 'name'), neg=p.get('neg', True))
@@ -1887,14 +1893,18 @@ def run_infer_case(p):
             y = let(type_=O.Item, domain=d1)
             a_arg = x if a_kind == 'var' else O.BuiltC(a=x, tag='inner')
             b_arg = y if b_kind == 'var' else (y.name if b_kind == 'attr' else (an(entity(y)) if b_kind == 'lookup' else const))
+            if b_kind == 'lookup_cond':
+                b_arg = an(entity(y, O.OPS[inner_op](y.size, x.size)))
             if b_kind == 'shared':
                 b_arg, tag_arg = y.name, y.size
             else:
                 tag_arg = tag
             head = T(a=a_arg, b=b_arg, tag=tag_arg)
-            q = infer(entity(head, O.build(cond, [x, y] if b_kind not in ('lookup', 'shared') else [x])))
+            q = infer(entity(head, O.build(cond, [x, y] if b_kind not in ('lookup', 'shared', 'lookup_cond') else [x])))
         got = list(q.evaluate())
-        if b_kind in ('lookup', 'shared'):
+        if b_kind == 'lookup_cond':
+            sat = [(a, b) for a in d0 if O.holds(cond, {0: a}) for b in d1 if O.OPS[inner_op](b.size, a.size)]
+        elif b_kind in ('lookup', 'shared'):
             sat = [(a, b) for a in d0 if O.holds(cond, {0: a}) for b in d1]
         else:
             sat = [(a, b) for a in d0 for b in d1 if O.holds(cond, {0: a, 1: b})]
@@ -1912,11 +1922,11 @@ def run_infer_case(p):
         return ('nested', type(g.a).__name__, id(getattr(g.a, 'a', None)), getattr(g.a, 'tag', None))
 
     def key_b(v):
-        return ('id', id(v)) if b_kind in ('var', 'const', 'lookup') else ('val', v)
+        return ('id', id(v)) if b_kind in ('var', 'const', 'lookup', 'lookup_cond') else ('val', v)
     tag_key = (lambda t: ('val', t)) if b_kind == 'shared' else (lambda t: id(t))
     gk = sorted((key_a(g), key_b(g.b), tag_key(g.tag)) for g in got)
     wk = sorted(((('obj', id(a)) if a_kind == 'var' else ('nested', 'BuiltC', id(a), 'inner')),
-                 key_b(b if b_kind in ('var', 'lookup') else (b.name if b_kind in ('attr', 'shared') else const)),
+                 key_b(b if b_kind in ('var', 'lookup', 'lookup_cond') else (b.name if b_kind in ('attr', 'shared') else const)),
                  tag_key(b.size if b_kind == 'shared' else tag)) for a, b in sat)
     if gk != wk:
         return dict(info, built=len(got), want=len(sat), signature_kind='instances',
